@@ -19,8 +19,9 @@ LEVEL_TEXT = ("Decides clauses C16-a..d: every field of the derive's ContainerAt
               ' (serde names need not be identifiers: kebab-case, `rename = "a-b"`), and an identifier is never split at letters (which would drop them); the '
               "snake_case variant converter (on which kebab and the SCREAMING forms are built) pushes its `_` separator under exactly serde_derive's two per-"
               'character tests -- upper-case and not the first character -- and pushes the lower-cased character unconditionally; no name taken from an explicit '
-              '`rename` attribute reaches a container case conversion (reaching definitions of the name variable), so an explicit rename wins as in serde. Decides '
-              'these clauses, not agreement of the derived schema with serde_derive for all type definitions.')
+              '`rename` attribute reaches a container case conversion (reaching definitions of the name variable), so an explicit rename wins as in serde; on the '
+              'camelCase arm of the field converter the head of the PascalCase form is what gets lower-cased (`_id` -> `Id` -> `id`), on that of the variant '
+              'converter the head of the name. Decides these clauses, not agreement of the derived schema with serde_derive for all type definitions.')
 
 ATTR = "ohkami_macros::openapi::attributes::serde::attributes::"
 # serde attributes that do not change the serialized shape / the set of accepted documents described by the schema
@@ -48,6 +49,7 @@ def run(ck, progs):
         ck.guard("C16-a EXHAUSTIVE attributes", lambda: c16a(ck, prog))
         ck.guard("C16-b REACH naming", lambda: c16b(ck, prog))
         ck.guard("C16-c DECISION word boundary", lambda: c16c(ck, prog))
+        ck.guard("C16-e DECISION camelCase head", lambda: c16e(ck, prog))
         ck.guard("C16-d ORDER rename precedence", lambda: c16d(ck, prog))
     ck.config = None
 
@@ -176,6 +178,45 @@ def c16c(ck, prog):
               how="push(ch.to_ascii_lowercase()) on every iteration")
     ck.floor(R, "separator pushes", len(seps), 1)
     ck.floor(R, "character pushes", len(pushes), 1)
+
+
+def c16e(ck, prog):
+    """serde's camelCase: for a field, the PascalCase form (underscores removed, the letter after each capitalised) with its
+    *first character* lower-cased -- `_id` is `Id` in PascalCase, hence `id`; for a variant, the variant name with its first
+    character lower-cased. On the Camel arm of each converter there must be a lower-casing of the head, applied to the
+    PascalCase result (field) / to the name (variant), not to something else."""
+    R = "C16-e DECISION camelCase head"
+    for nm in ("apply_to_field", "apply_to_variant"):
+        f = prog.one(r"serde::case::Case::%s$" % nm)
+        arm = None
+        for sb in sorted(f.live_blocks()):
+            if f.blocks[sb]["t"]["k"] != "switch":
+                continue
+            info = f.switch_info(sb)
+            if info and info.get("kind") == "variant" and info["place"] == [1, []]:
+                names = prog.variant_names(info["ty"]) or {}
+                tbs = [tb for tb, lab in f.succ(sb) if names.get(lab) == "Camel"]
+                if not tbs:
+                    tbs = [tb for tb, lab in f.succ(sb) if lab == "otherwise"]
+                arm = f.reachable_from(tbs[0]) if tbs else None
+                break
+        if arm is None:
+            ck.ob(R, "%s:camel-arm" % nm, False, f.loc(None), "no match on the case rule in Case::%s" % nm)
+            continue
+        lows = [c for c in f.calls() if c.name in ("to_ascii_lowercase", "to_lowercase", "make_ascii_lowercase") and c.bb in arm and c.args]
+        descs = [decision.describe_deep(f, c.args[0], 8) for c in lows]
+        head = lambda d: re.search(r"RangeTo\{const 1\}|RangeToInclusive\{const 0\}|next\((chars|char_indices)\(", d) is not None
+        if nm == "apply_to_field":
+            good = [d for d in descs if head(d) and "arg2" not in re.sub(r"apply_to_field\(Pascal\{\},arg2\)", "PASCAL", d) and ("PASCAL" in re.sub(r"apply_to_field\(Pascal\{\},arg2\)", "PASCAL", d) or d.startswith("var:") or "(var:" in d)]
+            want = "the first character of the PascalCase form is lower-cased (`_id` -> `Id` -> `id`)"
+        else:
+            good = [d for d in descs if head(d) and "arg2" in d]
+            want = "the first character of the variant name is lower-cased"
+        ok = bool(good)
+        ck.ob(R, "%s:camelCase" % nm, ok, f.loc(lows[0].sp if lows else None),
+              "" if ok else "on the camelCase arm of Case::%s no lower-casing of the head of %s is found (lower-casings on the arm: %r): serde writes %s, "
+              "so a field like `_id` / `Name` is named differently in the schema and on the wire" % (nm, "the PascalCase form" if nm == "apply_to_field" else "the name", descs, want),
+              how="%s: %s" % (want, good[0][:70] if good else ""))
 
 
 def derives_from(f, rvalue, rx, seen, depth=5):
